@@ -27,6 +27,7 @@ func genWire(t *rapid.T) Case {
 	c := Case{Mode: "wire"}
 	nreq := rapid.SampledFrom([]int{1, 1, 2, 3, 4, 6}).Draw(t, "nreq")
 	c.ES = chance(t, "es", 2)
+	c.Meta = chance(t, "meta", 2)
 	c.AvgEventSize = rapid.SampledFrom([]int{1, 16, 256, 4096}).Draw(t, "avgEventSize")
 	allowLong := chance(t, "allowLong", 2)
 	for r := 0; r < nreq; r++ {
@@ -87,7 +88,11 @@ func wireClient(addr string, rr *reqRun, rec *recorder, cs *conns) error {
 	defer conn.Close()
 	cs.add(conn)
 	q := rr.q
-	hdr := fmt.Sprintf("POST %s HTTP/1.1\r\nHost: c11.test\r\nConnection: close\r\nContent-Type: application/json\r\n", q.Path)
+	ctype := q.ContentType
+	if ctype == "" {
+		ctype = "application/json"
+	}
+	hdr := fmt.Sprintf("POST %s HTTP/1.1\r\nHost: c11.test\r\nConnection: close\r\nContent-Type: %s\r\n", q.Path, ctype)
 	if q.gzipHeader() {
 		hdr += "Content-Encoding: gzip\r\n"
 	}
